@@ -101,6 +101,8 @@ NEG_OPS = (ast.IsNot, ast.NotEq, ast.NotIn)
 def _is_negative(t):
     if isinstance(t, ast.UnaryOp) and isinstance(t.op, ast.Not):
         return True
+    if isinstance(t, ast.Compare) and len(t.ops) == 1 and isinstance(t.ops[0], (ast.GtE, ast.LtE)):
+        return all(C._is_int_expr(x) for x in (t.left, t.comparators[0]))     # `a >= b` is `not a < b` only without NaN
     return isinstance(t, ast.Compare) and len(t.ops) == 1 and isinstance(t.ops[0], NEG_OPS)
 
 
